@@ -80,10 +80,20 @@ class Machine:
         self.regs[n] = v & M64
         self.init[n] = True
 
+    _EXIT = object()
+
     def run(self, max_steps=100000):
-        pc = 0
-        n = len(self.insns)
+        self.pc = 0
         while True:
+            r = self.step(max_steps)
+            if r is not None:
+                return r
+
+    def step(self, max_steps=100000):
+        """execute one instruction at self.pc; returns r0 on EXIT, else None"""
+        pc = self.pc
+        n = len(self.insns)
+        if True:
             if not 0 <= pc < n:
                 raise Fault(f"pc {pc} out of program")
             self.steps += 1
@@ -105,18 +115,18 @@ class Machine:
                     if op & 8:                     # to big endian on a little-endian host: swap
                         v = int.from_bytes(v.to_bytes(bits // 8, "little"), "big")
                     self.wr(dst, v)
-                    pc += 1
-                    continue
+                    self.pc = pc + 1
+                    return None
                 if code == 8:                      # NEG
                     v = -self.rd(dst)
                     self.wr(dst, v & (M64 if is64 else M32))
-                    pc += 1
-                    continue
+                    self.pc = pc + 1
+                    return None
                 b = self.rd(src) if op & 8 else simm
                 if code == 0xb:                    # MOV
                     self.wr(dst, b & (M64 if is64 else M32))
-                    pc += 1
-                    continue
+                    self.pc = pc + 1
+                    return None
                 a = self.rd(dst)
                 if is64:
                     a &= M64; b &= M64; w = 64; m = M64
@@ -139,7 +149,7 @@ class Machine:
                 if not op & 8 and code in (3, 9) and imm == 0:
                     raise Fault("division by zero")
                 self.wr(dst, v & m)
-                pc += 1
+                self.pc = pc + 1
             elif cls in (5, 6):                    # JMP / JMP32
                 code = op >> 4
                 if cls == 5 and code == 8:         # CALL
@@ -150,13 +160,14 @@ class Machine:
                     for i in range(1, 6):
                         self.regs[i] = POISON; self.init[i] = False
                     self.wr(0, r0)
-                    pc += 1
-                    continue
+                    self.pc = pc + 1
+                    return None
                 if cls == 5 and code == 9:         # EXIT
+                    self.pc = pc
                     return self.rd(0)
                 if code == 0:
-                    pc += 1 + off
-                    continue
+                    self.pc = pc + 1 + off
+                    return None
                 a = self.rd(dst)
                 b = self.rd(src) if op & 8 else simm
                 w = 64 if cls == 5 else 32
@@ -167,7 +178,7 @@ class Machine:
                      0xa: a < b, 0xb: a <= b, 0xc: sa < sb, 0xd: sa <= sb}.get(code)
                 if t is None:
                     raise Fault(f"bad jmp op {op:#x}")
-                pc += 1 + (off if t else 0)
+                self.pc = pc + 1 + (off if t else 0)
             elif cls == 0:                         # LD_IMM64
                 if op != 0x18 or pc + 1 >= n:
                     raise Fault(f"bad ld op {op:#x}")
@@ -181,7 +192,7 @@ class Machine:
                 else:
                     raise Fault("unsupported pseudo load")
                 self.wr(dst, v)
-                pc += 2
+                self.pc = pc + 2
             else:
                 size = {0: 4, 8: 2, 0x10: 1, 0x18: 8}[op & 0x18]
                 mode = op & 0xe0
@@ -196,7 +207,8 @@ class Machine:
                     self.store(a, size, self.load(a, size) + self.rd(src))
                 else:
                     raise Fault(f"bad memory op {op:#x}")
-                pc += 1
+                self.pc = pc + 1
+        return None
 
 
 class ArrayMapModel:
